@@ -65,20 +65,20 @@ CHECKS = {
 # parts added after the fourth round of seeded changes (appended to the level text)
 ADDED = {
  "C01": " Added later: call histories on one thread (two keys of one variant; four key pairs assigned in turn to the same variable: each signature verifies and equals the one made with a key object of its own); a message-length ladder (every length 0..=600, thorough 0..=2100, and lengths around 2^12..2^18) and tight-fit signatures (Falcon-1024 signatures whose compressed s2 leaves 0..8 bits of the body unused; thorough: a window of 60000 signer streams). Eleventh round: signatures for other outcomes of the lattice sampler (s2 + d*f for +-1 patterns d aligned so that one coefficient of s2 reaches the hundreds or thousands while the norm bound and the body length hold): honest outputs far from the typical set.",
- "C02": " Added later: verify call histories over public keys that differ in one coefficient (all pairs and triples on one thread, same variable), two-key history differential with a verify operation; a message-length ladder of triples at the bound and one above; every unary run length 0..95 at every cursor alignment (s2 = +-(128 r + low) X^j); E5 program `verify` (three threads verifying valid and invalid pairs under shared key objects, all schedules up to the preemption bound). Eleventh round: s1 steered to one extreme value on every stride class (s2 = 1, h = c - v): norms from n+1 to n*6144^2+1.",
+ "C02": " Added later: verify call histories over public keys that differ in one coefficient (all pairs and triples on one thread, same variable), two-key history differential with a verify operation; a message-length ladder of triples at the bound and one above; every unary run length 0..95 at every cursor alignment (s2 = +-(128 r + low) X^j); E5 program `verify` (three threads verifying valid and invalid pairs under shared key objects, all schedules up to the preemption bound). Eleventh round: s1 steered to one extreme value on every stride class (s2 = 1, h = c - v): norms from n+1 to n*6144^2+1. Twelfth round: triples at the bound and one above for every scripted XOF chunk stream of C14's family (c computed by the reference on the stream; verify under the hooked XOF reader).",
  "C03": " Added later: verify on key/signature pairs engineered so that the spectrum it inverts is q-1 on an aligned block of slots (every block size and offset); the full unary-run ladder 0..=130 at every alignment; verify under every scripted shape of HashToPoint's XOF stream (runs of up to 2048 rejected chunks, many rejections spread out, periodic rejections) through the XOF hook. Eleventh round: the same coefficient-domain steering of s1 (all indices, every residue class modulo 2..64, halves) for verify's norm accumulators.",
  "C04": " Added later: steering seeds on which an invertible candidate misses the Gram-Schmidt bound by less than 1 (confirmed by a reference walk at run time); the Gram-Schmidt quantity of key generation as a component against the definition on 64 (thorough 512) first candidates per variant.",
  "C05": " Added later: decoder call histories on one thread (valid keys of both variants and rejected strings, all pairs and triples x,y,x); runs of zero coefficients (length 1..24, 32, 40, 64 x start position) in f, g, F through the reference encoder, from_bytes and to_bytes; E5 program `decode` (three threads decoding, re-encoding and signing concurrently).",
  "C06": " Added later: the reserved value at every subset of size 2 and 3 of 12 secret-key field positions; out-of-range values at every pair of 6 public-key positions. Eleventh round: the reserved value -128 in F fields of shifted bases F + c X^k f of generated keys (still NTRU bases: only the field test can reject); the oracle is three-valued for secret keys (malformed: reject; well-formed NTRU basis with G in range: accept; well-formed but not a basis: either, canonical if accepted).",
  "C07": " Added later: S6 - every sequence of 2..4 (thorough 5) coefficient tokens over a 10-token alphabet with invalid tokens, and every pair of tokens at 9 positions of a production-size body. Eleventh round: unary runs at the widths of 10-, 12-, 15- and 16-bit counters (1023..65537 zeros) in an 8300-byte buffer.",
- "C08": " Added later: key copies (clones before / after first use, clone of a clone, objects decoded twice) signing in every order of a depth-3 history; a message-length ladder (every length 0..=1100, thorough 0..=4200, and lengths around 2^13..2^20); salt entropy by information flow: with the generator replaced by a fixed word stream, at least 320 of its first 2048 bits must influence the salt.",
+ "C08": " Added later: key copies (clones before / after first use, clone of a clone, objects decoded twice) signing in every order of a depth-3 history; a message-length ladder (every length 0..=1100, thorough 0..=4200, and lengths around 2^13..2^20); salt entropy by information flow: with the generator replaced by a fixed word stream, at least 320 of its first 2048 bits must influence the salt. Twelfth round: the quick tier runs the whole check a second time in the plain release build (debug assertions off), where a salt draw hidden inside debug_assert! disappears.",
  "C09": " Added later: call pairs on one thread over all ordered pairs of (mu, sigma', sigma_min) cells; a centre ladder (mu = +-(k + f), k up to 32000, f at the ends and middle of [0,1)).",
  "C10": " Added later: I2 on a key that replaced another key in the same variable; the range half of I1 on a wider key window (24/8 keys quick, 256/64 thorough, plus steering seeds); per key the executions with the most negative / most positive sampler centre of a message ladder; small-scope targets scaled so that centres reach +-7000.",
  "C11": " Added later: length histories on one thread (all triples of 7 lengths, inputs sharing a prefix across lengths; slot roots read on a fresh thread); intermediate-state sparsity - inputs built by CRT so that their residues modulo the partial factors X^m - zeta have each half-block zero or dense (all patterns up to 8 halves, singles/pairs/periodic beyond), forward and inverse, every n >= 8.",
  "C12": " Added later: call histories on one fresh thread (inverse_or_zero along [x, 0, 0, x, x, 1] for every residue, triples over a small set, add/sub/mul along (a,b),(b,a),(a,a),(a,b),(b,b)); product-structured batches for batch inversion.",
  "C13": " Added later: length histories on one thread (all triples of 5 lengths; round trip, split/merge, product at each step); a scale ladder (operands scaled by 2^k, k = -64..14); split/merge on transforms of real polynomials chosen in the transform domain (real / imaginary / complex / zero on partner slots), against the definition over partner slots.",
  "C14": " Added later: call histories on one thread (all x,y,x and x,y,y over 14 (input, degree) symbols incl. inputs of 1024, 1025 and 5000 bytes); a length ladder (every length 0..=1100, thorough 0..=4200, around 2^13..2^20, two contents); scripted XOF streams through the XOF hook (constant accepted values incl. multiples of q, runs of k rejected chunks at four positions for k up to 2048, r rejections spread over n + r chunks, periodic rejections) against Algorithm 3 on the same stream.",
- "C15": " Added later: single-bit flips also on the seeds whose first candidate does not fit the encoding (retry branch) and on the seed with the longest rejection run; bit flips on the all-ones seed.",
+ "C15": " Added later: single-bit flips also on the seeds whose first candidate does not fit the encoding (retry branch) and on the seed with the longest rejection run; bit flips on the all-ones seed. Twelfth round: a history process that dies or prints no key while the baseline process succeeds is a violation (keygen-fails-after-history), not a machinery failure.",
  "C16": " Added later: a message history of shrinking and growing lengths on one thread in both interop directions; engineered signatures of squared norm bound-1, bound, bound+1 through the reference verifier and ours; a message-length ladder in both interop directions; keys whose public polynomial has a coefficient 0 or q-1; signatures at the edge of the fixed-size body (0..8 unused bits, compression retries).",
  "C17": " Added later: call histories in which a reduction follows the Gram-Schmidt quantity and a reduction of a look-alike pair (same degree and norms) on the same thread; short unreduced pairs (F,G) = round(rho X^c (f,g)), rho in {1/2+, 3/4, 1-}, every coefficient shorter than the largest of (f,g), at every n. Eleventh round: scalar mul/add/sub of the 30-bit field over an alphabet of seam values against every 16-bit value and every value within 4096 of the modulus (a non-canonical result must still negate, lift and multiply correctly).",
 }
